@@ -11,7 +11,6 @@ package main
 import (
 	"bufio"
 	"bytes"
-	"encoding/hex"
 	"encoding/json"
 	"fmt"
 	"os"
@@ -19,6 +18,7 @@ import (
 	"reflect"
 	"regexp"
 	"sort"
+	"strconv"
 	"strings"
 	"sync"
 	"time"
@@ -29,22 +29,20 @@ import (
 	"github.com/practable/relay/verifharness/lib"
 )
 
-// hx emits a byte string as hex text for Corr/C18.v's [hx]; long strings are split so that no single
-// Coq string literal becomes a term deep enough to exhaust coqc's stack
+// hx emits a byte string for the Corr file: packed seven bytes to a 63-bit integer literal, least
+// significant byte first ([ub] unpacks it)
 func hx(b []byte) string {
-	const chunk = 400
-	if len(b) <= chunk {
-		return `(hx "` + hex.EncodeToString(b) + `")`
-	}
-	parts := []string{}
-	for i := 0; i < len(b); i += chunk {
-		j := i + chunk
-		if j > len(b) {
-			j = len(b)
+	ws := make([]string, 0, len(b)/7+1)
+	for i := 0; i < len(b); i += 7 {
+		var w uint64
+		for j := 6; j >= 0; j-- {
+			if i+j < len(b) {
+				w = w<<8 | uint64(b[i+j])
+			}
 		}
-		parts = append(parts, `hx "`+hex.EncodeToString(b[i:j])+`"`)
+		ws = append(ws, strconv.FormatUint(w, 10))
 	}
-	return "(" + strings.Join(parts, " ++ ") + ")"
+	return "(ub " + strconv.Itoa(len(b)) + "%N [" + strings.Join(ws, ";") + "]%uint63)"
 }
 func hxs(s string) string { return hx([]byte(s)) }
 
@@ -81,6 +79,10 @@ loop:
 		case o, ok := <-lines:
 			if !ok {
 				break loop
+			}
+			if o.APIUsed != "" {
+				s.API = o.APIUsed
+				continue
 			}
 			s.Obs = append(s.Obs, o)
 		case <-watchdog:
@@ -345,6 +347,9 @@ func oracle(s Session, idx int, res *lib.Result) {
 				bad(i, "reply-not-json", fmt.Sprintf("reply %q is not JSON", trunc(o.Reply)))
 			}
 			answeredWithError = isErrorObject(o.Reply)
+			if s.Mode == "ctl" && o.CtlSeen && !bytes.Equal(o.CtlReply, o.Reply) {
+				bad(i, "reply-differs-on-control-connection", fmt.Sprintf("topic %q, control connection %q", trunc(o.Reply), trunc(o.CtlReply)))
+			}
 			if s.Mode == "ws" && o.WsSeen && !bytes.Equal(o.WsReply, o.Reply) {
 				bad(i, "reply-differs-on-websocket", fmt.Sprintf("topic %q, websocket %q", trunc(o.Reply), trunc(o.WsReply)))
 			}
@@ -426,15 +431,19 @@ func main() {
 		sessions = []Session{s}
 	} else {
 		sessions = corpus()
-		n := a.Pick(36, 400)
+		n := a.Pick(48, 480)
 		for i := 0; i < n; i++ {
 			r := rng.Fork()
-			mode := []string{"topic", "topic", "ws", "direct"}[i%4]
+			mode := []string{"topic", "ctl", "ws", "direct", "topic", "ws"}[i%6]
 			nh := 5
 			if mode == "direct" {
 				nh = 0
 			}
-			sessions = append(sessions, genSession(r, r.Range(10, 16), nh, mode))
+			s := genSession(r, r.Range(10, 16), nh, mode)
+			if mode == "ctl" {
+				s.API = "ws://127.0.0.1:0/ctl/api" // replaced by the address of the harness's relay end when the session runs
+			}
+			sessions = append(sessions, s)
 		}
 	}
 
@@ -504,6 +513,16 @@ func main() {
 			if o.Resent {
 				res.Count("command-dropped-by-hub-and-resent")
 			}
+			if s.Mode == "ctl" {
+				switch {
+				case o.Fallback:
+					res.Count("ctl-no-control-connection-sent-over-topic")
+				case o.CtlSeen:
+					res.Count("ctl-reply-came-back-over-control-connection")
+				default:
+					res.Count("ctl-reply-not-seen-on-control-connection")
+				}
+			}
 			if s.Mode == "ws" {
 				if o.WsSeen {
 					res.Count("ws-client-saw-reply")
@@ -515,7 +534,7 @@ func main() {
 		res.Sample(s)
 		res.Cases = append(res.Cases, s)
 	}
-	hdr := "From Relay Require Import Base.Prelude Base.AList Model.AdminJson Model.AdminApi Corr.C18."
+	hdr := "From Coq Require Import Uint63.\nFrom Relay Require Import Base.Prelude Base.AList Model.AdminJson Model.AdminApi Corr.C18."
 	if _, err := lib.WriteShards(a.Out, hdr, "case", coq, res.ShardSize); err != nil {
 		fmt.Fprintln(os.Stderr, err)
 		os.Exit(2)
